@@ -97,8 +97,10 @@ func c06nameEntries(thorough bool) []c06name {
 		ext   [][2]string
 	}
 	forms := []form{{f: 'E'}, {'F', 0, 0o644, 0, nil}, {'U', 1, os.ModeDir | 0o755, 1000000000, nil},
-		{'X', 1<<63 - 1, os.ModeSymlink | 0o777, 1<<32 - 1, [][2]string{{"t", "d"}}}, {'Y', 5, 0o600, 1, [][2]string{{"t1", "d1"}, {"", ""}}}}
+		{'X', 1<<63 - 1, os.ModeSymlink | 0o777, 1<<32 - 1, [][2]string{{"t", "d"}}}, {'Y', 5, 0o600, 1, [][2]string{{"t1", "d1"}, {"", ""}}},
+		{'U', 3, os.ModeDevice | os.ModeCharDevice | 0o666, 5, nil}}
 	if thorough {
+		forms = append(forms, form{'F', 0, os.ModeDevice | 0o660, 9, nil}, form{'U', 0, os.ModeNamedPipe | os.ModeSetuid | 0o600, 9, nil}, form{'S', 0, os.ModeSocket | os.ModeSticky | 0o777, 9, nil})
 		forms = append(forms, form{'S', 7, 0o640, 2, nil}, form{'X', 3, 0o644, 3, nil})
 	}
 	var r []c06name
@@ -222,7 +224,10 @@ func c06enumerate(kind string, typ byte, thorough bool, yield func(lp *c06lp)) {
 		for _, id := range c06ids {
 			for _, form := range []byte{'F', 'S', 'U', 'X', 'Y'} {
 				for _, size := range []int64{0, 1, 0x0102030405060708, 1<<63 - 1} {
-					for _, mode := range []os.FileMode{0o644, os.ModeDir | 0o755, os.ModeSymlink | 0o777, 0} {
+					for _, mode := range []os.FileMode{0o644, os.ModeDir | 0o755, os.ModeSymlink | 0o777, 0,
+						// every file type package os knows, and the three special bits
+						os.ModeNamedPipe | 0o600, os.ModeSocket | 0o755, os.ModeDevice | os.ModeCharDevice | 0o666, os.ModeDevice | 0o660,
+						os.ModeSetuid | 0o755, os.ModeSetgid | os.ModeDir | 0o775, os.ModeSticky | os.ModeDir | 0o777} {
 						for _, mt := range []int64{0, 1000000000, 1<<32 - 1} {
 							for _, x := range [][][2]string{nil, {{"t", "d"}}, {{"type@x", "\x00\xff"}, {"", ""}}} {
 								if x != nil && form != 'X' && form != 'Y' {
